@@ -55,8 +55,13 @@ pub fn bus_write_frame() {
     assert!(bus.is_key_edge_int_enabled() == (q.micr & 1 == 1), "key edge enable bit");
     // status registers are read-only from the bus side
     assert!(q.misr == p.misr && q.usr == p.usr && q.uart_recv == p.uart_recv, "status regs");
-    assert!(q.ucr == if addr == 0xFB { byte & 0xF8 } else { p.ucr }, "ucr");
-    assert!(q.uart_send == if addr == 0xFA { byte } else { p.uart_send }, "uart send");
+    // UART registers are not part of C10's statement: only the frame (who may change them) is asserted
+    if addr != 0xFB {
+        assert!(q.ucr == p.ucr, "ucr frame");
+    }
+    if addr != 0xFA {
+        assert!(q.uart_send == p.uart_send, "uart send frame");
+    }
     if addr != 0xFC && addr != 0xFD {
         assert!(
             q.timer_enabled == p.timer_enabled
